@@ -16,7 +16,9 @@ META = {
         "C03.3 a batch's response list is built only by append inside one loop over the request list, at most one "
         "append per entry, zero only when the single dispatch returned None, each appended value derived from "
         "that iteration's entry, validate_request first; C03.4 an empty response list raises NoMulticallResult "
-        "before the list can be returned and that exception and None both map to an empty body."),
+        "before the list can be returned and that exception and None both map to an empty body; C03.5 the single-entry "
+        "dispatcher returns a response object on every path of a call with an id and the literal None on every path of a "
+        "notification, exceptional handlers included (imported from C04.2: exactly one response per non-notification entry)."),
     "does_not_decide": "equality of the echoed JSON value after a backend round trip; the client-side pairing by "
                        "position is decided under C01.6.",
     "rules": {
@@ -24,6 +26,7 @@ META = {
         "C03.2": "provenance of the id along dump -> Payload -> response dict; normalised tests on the id",
         "C03.3": "per-iteration path exploration of the batch loop with an append counter; mutator who-may-call",
         "C03.4": "dominance of the emptiness guard over the list return; handler/branch return literals",
+        "C03.5": "imported C04.2 / C04.2b (fact-consistent path exploration)",
     },
     "assumptions": ["list.append keeps insertion order; a for loop visits a list in order"],
 }
@@ -342,6 +345,14 @@ def check(ck):
                            "a None response (notification) is not mapped to an empty body: `%s`" % q.stmt_text(n),
                            q.loc(fm, n))
     ck.floor("C03.4", 4)
+    _c03_5(ck)
+
+
+def _c03_5(ck):
+    """one response per non-notification entry, none per notification entry: shared with C04.2 / C04.2b"""
+    from rules import c04, common
+    common.import_rules(ck, c04, {"C04.2": "C03.5", "C04.2b": "C03.5"})
+    ck.floor("C03.5", 4)
 
 
 def _returned_to_redumping_callers(ck, prog, fi, n, c):
